@@ -143,7 +143,11 @@ func (pr *pkgRun) observe(rq Request) (*obs, *url.URL, bool) {
 	srv := pr.plain
 	if rq.Prefix {
 		srv = pr.pfx
-		if !rq.NoPrefix {
+		switch {
+		case rq.NoPrefix:
+		case rq.PrefixAs != "":
+			raw = rq.PrefixAs + raw
+		default:
 			raw = pathPrefix + raw
 		}
 	}
